@@ -125,21 +125,23 @@ def sig_cases(rng, k=1):
     def arg(kind, style):
         w = 'Q' + ''.join(rng.choice('abcdefghijklmnopqrstuvwxyz') for _ in range(rng.randint(2, 4)))
         if kind == 'A':
-            return {'brace': '{%s}' % w, 'bare': ' ' + w[0], 'tok': w[0], 'braceT': '{%s teh.}' % w}[style]
+            return {'brace': '{%s}' % w, 'bare': ' ' + w[0], 'tok': w[0], 'braceT': '{%s teh.}' % w,
+                    'lang': '{\\foreignlanguage{german}{%s}}' % w}[style]
         if kind == 'O':
             return rng.choice(['', '[%s]' % w, ''])
         if kind == '*':
             return rng.choice(['', '*'])
         return ''
+    acc = [("\\'", 'A'), ('\\"', 'A'), ('\\^', 'A'), ('\\~', 'A'), ('\\c', 'A'), ('\\v', 'A'), ('\\H', 'A')]
     for _ in range(k):
-        for nm, args in macs:
+        for nm, args in macs + acc:
             if not nm.startswith('\\'):
                 continue
-            for style in ('brace', 'bare', 'tok', 'braceT'):
+            for style in ('brace', 'bare', 'tok', 'braceT', 'lang'):
                 for tail in ('', rng.choice(['\n', ' Qpost.', '\n\nQpost'])):
                     body = nm + ''.join(arg(a, style) for a in args)
                     src = rng.choice(['', 'Qpre ', 'Qpre\n\n', '\\begin{itemize}\\item ']) + body + tail
-                    out.append({'src': src, 'opts': {'pack': '*', 'lang': rng.choice(['en', 'de', 'ru'])}, 'multi': rng.random() < 0.15,
+                    out.append({'src': src, 'opts': {'pack': '*', 'lang': rng.choice(['en', 'de', 'ru'])}, 'multi': style == 'lang' or rng.random() < 0.15,
                                 'kind': 'sig', 'words': None})
         for nm, args in envs:
             for style in ('brace', 'tok'):
